@@ -229,3 +229,15 @@ Example C05_text_nonvacuous : forall il id,
         [(txt "A", 0, 32, true, 16777217, 4591870180066957722, 13854198353698488320, txt "speed", txt "km/h", []);
          (txt "B", 39, 8, false, 0, 4607182418800017408, 0, [], [], [(-1, txt "o"); (2, txt "t")])])].
 Proof. exact ex_src_compiles. Qed.
+
+(** ... and integer attribute values over the whole int64 range arrive as written (F12: Parser.int
+    reads decimal integers exactly): two signed 64-bit signals with the start values 2^63 - 1 and
+    -(2^53 + 1), neither of which is a float64, under a BA_DEF_ with the range [MinInt64, MaxInt64] *)
+Example C05_text_int64_start_values : forall il id,
+  wf_file ex64_src /\ in_class (elaborate [] ex64_src) = true /\ print [] ex64_src = ex64_text /\
+  exists db, compile_text il id [] ex64_text = Some (db, []) /\
+    map (fun m => (msg_name m, map (fun s => (s_name s, s_length s, s_signed s, s_default s)) (msg_signals m))) (db_messages db)
+    = [(txt "M", [(txt "S", 64, true, 9223372036854775807)]); (txt "L", [(txt "T", 64, true, -9007199254740993)])]
+    /\ map (fun d => match d with DAttribute a => [(ad_min_int a, ad_max_int a)] | _ => [] end) (elaborate [] ex64_src)
+       = [[]; []; []; [(-9223372036854775808, 9223372036854775807)]; []; []].
+Proof. exact ex64_src_compiles. Qed.
